@@ -221,6 +221,15 @@ def run(ctx):
     n = 10 if ctx.quick else 120
     cases = [c for c in rescorr.gen_cases(rng, n, ctx.quick, nt_max=20 if ctx.quick else 60, sched_prob=0.3)
              if c["grid"] != "huge"]
+    # user subclasses of both classes that override the documented hook `alpha_scaled` (a pressure-dependent law on the ideal class,
+    # another table's diffusivity on the single-phase class) on UNIFORM grids: every increment is the same number before the shift and
+    # differs in its last bits after it, so anything keyed on "the same step as before" behaves differently at the two origins
+    shipped_ = rescorr.shipped_gas(stride=20)
+    shipped_ = dict(shipped_, alpha=1.0 / (np.asarray(shipped_["compressibility"], float) * np.asarray(shipped_["viscosity"], float)))
+    for j_, (law_, nx_, dt_) in enumerate((([0.25, 0.75], 20, 0.01), ([1.6, -0.9], 35, 0.004)) if ctx.quick else
+                                          (([0.25, 0.75], 20, 0.01), ([1.6, -0.9], 35, 0.004), ([0.1, 0.9], 60, 0.002), ([2.0, -1.5], 12, 0.05))):
+        cases.append(dict(kind="ideal", pi=8000.0, pf=1000.0 + 2000.0 * j_, nx=nx_, times=np.arange(25 + 10 * j_) * dt_, grid="uniform", law=law_))
+        cases.append(dict(kind="single", table=shipped_, table_kind="shipped", pi=8000.0, pf=1000.0 + 2000.0 * j_, nx=nx_, times=np.arange(25 + 10 * j_) * dt_ * 3, grid="uniform", override=True))
     ev = impl_checks(ctx, cases)
     # the model (whose shift invariance is proved) against the implementation, on shifted grids
     shifted = []
